@@ -284,7 +284,41 @@ def check_seed(heap, focus):
     return out
 
 
-def bfs(seed, depth, focus, tier, opnames=None, max_states=None):
+def _round(x):
+    """Round to 10 significant digits (results of the integer-valued patterns are exact anyway)."""
+    x = np.asarray(x)
+    if x.dtype.kind in 'iub':
+        return x
+    with np.errstate(all='ignore'):
+        if x.dtype.kind == 'c':
+            return _round(x.real) + 1j * _round(x.imag)
+        mag = np.where(x == 0, 1.0, 10.0 ** np.floor(np.log10(np.abs(np.where(x == 0, 1.0, x)))))
+        return np.round(x / mag, 9) * mag
+
+
+def digest(heap, res, viol):
+    """Observable outcome of one transition, hashable and comparable between two interpreter processes."""
+    import hashlib
+    if viol:
+        cat, key, msg = viol[0]
+        if ':raises:' in key:
+            return 'exc:' + key.split(':raises:')[1]
+        return 'viol:' + key
+    if res is None:
+        return 'none'
+    if res['kind'] == 'scalar':
+        v = complex(res['val'])
+        return 'scalar:%r' % (complex(_round(np.array(v.real)).item(), _round(np.array(v.imag)).item()),)
+    arr = heap.entries[res['target']].arr if res['kind'] == 'inplace' else res['arr']
+    legs = tuple((tuple(np.asarray(l.to_qflat()).reshape(-1).tolist()), int(l.qconj), tuple(np.asarray(l.slices).tolist())) for l in arr.legs)
+    blocks = tuple(sorted(tuple(r) for r in np.asarray(arr._qdata).tolist()))
+    h = hashlib.sha1()
+    d = arr.to_ndarray()
+    h.update(np.ascontiguousarray(_round(d).astype(np.complex128)).tobytes())
+    return (res['kind'], legs, tuple(arr._labels), tuple(np.asarray(arr.qtotal).tolist()), blocks, str(arr.dtype), tuple(d.shape), h.hexdigest()[:16])
+
+
+def bfs(seed, depth, focus, tier, opnames=None, max_states=None, digests=None):
     """Explicit-state BFS from one seed heap. Every transition is executed on real objects (rebuilt by replay)."""
     heap0 = build_seed(seed)
     v0 = check_seed(heap0, focus)
@@ -310,6 +344,8 @@ def bfs(seed, depth, focus, tier, opnames=None, max_states=None):
                 stats['transitions'] += 1
                 stats['traces'] += 1
                 stats['evaluations'] += 1
+                if digests is not None:
+                    digests.append((repr(tuple(hist) + (op,)), digest(h2, res, v)))
                 if v:
                     for (c, k, m) in v:
                         if len(viol) < 30:
